@@ -588,7 +588,7 @@ class Lowerer:
         args = [obj]
         for i, a in enumerate(argn):
             if a.get('kind') == 'CXXDefaultArgExpr':
-                if rule[0] in ('callee', 'calleeret'):
+                if not callable(rule) and rule[0] in ('callee', 'calleeret'):
                     args.append(self.default_arg(a))
                 continue
             args.append(self.arg(a, byref=(i < len(refs) and refs[i] and not self.is_class(self.skip(a)))))
